@@ -4,7 +4,8 @@
 # Built on the pack-names model of C05 (three-way merge under the names lock), with one more piece of ghost state:
 #   present = the pack names whose pack file and index files are in place in packs/ and indices/.
 include("C05_pack_names_merge.py")
-ghost(present=SetS(STR))
+ghost(present=SetS(STR),
+      combined=BOOL)     # the packer has just written a pack holding the content of the packs of the current operation
 PACKT = Opaque("Pack")
 X0 = ufunc("x0", PACKT)          # an arbitrary pack object
 
@@ -13,8 +14,13 @@ def named(packs_sort_seq):
     return None
 
 
-NoPackNamedN0 = fold_all("NoPackNamedN0", Seq(PACKT), lambda e: attr(e, "name") != N0()[0])
-NoPackNamedM0 = fold_all("NoPackNamedM0", Seq(PACKT), lambda e: attr(e, "name") != M0())
+def NoPackNamedN0(packs):
+    """no pack of the list is called like the arbitrary node N0 (membership form: survives filtering of the list)"""
+    return forall([PACKT], lambda p: Implies(In(p, packs), attr(p, "name") != N0()[0]))
+
+
+def NoPackNamedM0(packs):
+    return forall([PACKT], lambda p: Implies(In(p, packs), attr(p, "name") != M0()))
 
 
 def CI(g):
@@ -49,26 +55,41 @@ PUT4 = assumed("self.transport.put_file", local=True, result=NONE, modifies=["g.
                ensures=lambda c: And(c.g.disk_names == c.g.built, c.g.written),
                raises={"Exception": "unchanged"},
                note="transport.put_file replaces pack-names atomically (temp file + rename); a failing write changes nothing")
-OBS4 = verified(("RepositoryPackCollection", "_obsolete_packs"), local=True, params=["packs"], result=NONE, modifies=["g.present"],
-                # files are moved away only for packs that pack-names no longer lists
-                requires=lambda c: And(c.g.written, Not(c.g.names_locked), Implies(In(N0(), c.g.disk_names), NoPackNamedN0(c.packs))),
-                ensures=lambda c: And(Implies(And(In(N0()[0], c.old.g.present), NoPackNamedN0(c.packs)), In(N0()[0], c.g.present)),
-                                      Implies(And(In(M0(), c.old.g.present), NoPackNamedM0(c.packs)), In(M0(), c.g.present))),
-                no_raise=True)
+def obs_post(c, packs):
+    """only the given packs lose their files"""
+    return And(Implies(And(In(N0()[0], c.old.g.present), NoPackNamedN0(packs)), In(N0()[0], c.g.present)),
+               Implies(And(In(M0(), c.old.g.present), NoPackNamedM0(packs)), In(M0(), c.g.present)))
+
+
+OBS4 = assumed("self._obsolete_packs", local=True, result=NONE, modifies=["g.present"],
+               # files are moved away only for packs that pack-names no longer lists
+               requires=lambda c: And(c.g.written, Not(c.g.names_locked), Implies(In(N0(), c.g.disk_names), NoPackNamedN0(c.args[0]))),
+               ensures=lambda c: obs_post(c, c.args[0]), no_raise=True,
+               note="verified below (target _obsolete_packs): moves away the files of the given packs only, and swallows transport errors")
 SYNC4 = assumed("self._syncronize_pack_names_from_disk_nodes", local=True, result=Tup(Seq(STR), Seq(STR), Seq(STR)), modifies=["self._names"],
                 requires=lambda c: Not(c.g.names_locked),
                 ensures=lambda c: And(Implies(In(N0()[0], c.self._names), exists([BYTES], lambda v: In(NODE.mk(N0()[0], v), c.args[0]))),
                                       Implies(In(M0(), c.self._names), exists([BYTES], lambda v: In(NODE.mk(M0(), v), c.args[0])))),
                 note="afterwards the in-memory names are the names of the nodes just written (assumed; the function rebuilds self._names from them)")
 
-target(P + "_save_pack_names", variant="crash", local_contracts=[LOCK4, PUT4, OBS4, SYNC4],
+def save_pre(c, obsolete):
+    return And(Not(c.g.names_locked), Not(c.g.written), CI(c.g), memory_names_present(c, c.self._names),
+               # the packs to retire have been taken out of the in-memory list already
+               Implies(Not(obsolete.is_none),
+                       And(Implies(In(N0()[0], c.self._names), NoPackNamedN0(obsolete.val)),
+                           Implies(In(M0(), c.self._names), NoPackNamedM0(obsolete.val)))))
+
+
+SAVE4 = verified(("RepositoryPackCollection", "_save_pack_names"), local=True, params=["clear_obsolete_packs", "obsolete_packs"],
+                 modifies=["g.names_locked", "g.disk_idx", "g.disk_names", "g.built", "g.written", "g.obs_deleted", "g.present",
+                           "self._packs_at_load", "self._names"],
+                 requires=lambda c: save_pre(c, c.obsolete_packs if c.has("obsolete_packs") and isinstance(c.obsolete_packs.s, Opt)
+                                             else Opt(Seq(PACKT)).none()),
+                 ensures=lambda c: CI(c.g), raises={"Exception": lambda c: CI(c.g)})
+target(P + "_save_pack_names", variant="crash", local_contracts=[LOCK4, PUT4, OBS4, SYNC4], contract=SAVE4,
        params=dict(clear_obsolete_packs=BOOL, obsolete_packs=Opt(Seq(PACKT))),
        locals=dict(already_obsolete=Seq(STR), to_preserve=Opt(SetS(STR))), result=Seq(STR),
-       requires=lambda c: And(Not(c.g.names_locked), Not(c.g.written), CI(c.g), memory_names_present(c, c.self._names),
-                              # the packs to retire have been taken out of the in-memory list already
-                              Implies(Not(c.obsolete_packs.is_none),
-                                      And(Implies(In(N0()[0], c.self._names), NoPackNamedN0(c.obsolete_packs.val)),
-                                          Implies(In(M0(), c.self._names), NoPackNamedM0(c.obsolete_packs.val))))),
+       requires=lambda c: save_pre(c, c.obsolete_packs),
        loops={1: loop(r"for name, value in disk_nodes", done="done", inv=lambda c: And(
            c.g.names_locked, Not(c.g.written), c.g.built == c.done, c.g.disk_names == c.old.g.disk_names, c.g.present == c.old.g.present,
            c.self._packs_at_load == c.old.self._packs_at_load, c.self._names == c.old.self._names))},
@@ -76,11 +97,190 @@ target(P + "_save_pack_names", variant="crash", local_contracts=[LOCK4, PUT4, OB
                  "self._names"],
        crash_inv=lambda c: CI(c.g),
        ensures={"listed_packs_are_complete_afterwards": lambda c: CI(c.g),
-                "memory_names_are_complete_afterwards": lambda c: memory_names_present(c, c.self._names),
                 "one_atomic_switch": lambda c: lift(c.calls("self.transport.put_file") == 1)},
        raises={"Exception": lambda c: CI(c.g)},
-       canary=lambda c: c.g.present == c.old.g.present,
-       skip_mutants=False,
+       canary=lambda c: Not(c.g.written),
        equivalent_mutants={r"already_obsolete|to_preserve|clear_obsolete_packs": "clearing obsolete_packs/ never touches packs/ or indices/ (C05)",
                            r"_packs_at_load = disk_nodes": "bookkeeping for the next merge (C05)"},
        note="crash invariant after every effectful step: whatever pack-names lists is completely on disk")
+
+# ---- _obsolete_packs: moves away the files of the GIVEN packs only; a failing move is tolerated (the pack stays where it is)
+exceptions(PathError="Exception", TransportError="Exception", NoSuchFile="PathError", FileExists="PathError")
+attr_sort("Pack.name", STR)
+MOVE_NOTE = "moving a file out of packs/ or indices/ makes (at most) the pack it belongs to incomplete"
+assumed("pack.pack_transport.move", result=NONE, modifies=["g.present"],
+        ensures=lambda c: And(Implies(And(In(N0()[0], c.old.g.present), attr(c.pack, "name") != N0()[0]), In(N0()[0], c.g.present)),
+                              Implies(And(In(M0(), c.old.g.present), attr(c.pack, "name") != M0()), In(M0(), c.g.present))),
+        raises={"NoSuchFile": "unchanged", "PathError": "unchanged", "TransportError": "unchanged"}, note=MOVE_NOTE)
+assumed("self._index_transport.move", result=NONE, modifies=["g.present"],
+        ensures=lambda c: And(Implies(And(In(N0()[0], c.old.g.present), attr(c.pack, "name") != N0()[0]), In(N0()[0], c.g.present)),
+                              Implies(And(In(M0(), c.old.g.present), attr(c.pack, "name") != M0()), In(M0(), c.g.present))),
+        raises={"PathError": "unchanged", "TransportError": "unchanged"}, note=MOVE_NOTE)
+assumed("pack.pack_transport.mkdir", result=NONE, raises={"FileExists": "unchanged", "PathError": "unchanged", "TransportError": "unchanged"},
+        note="transport operations fail with PathError or TransportError (dromedary: assumed)")
+assumed("pack.file_name", pure=True, no_raise=True, result=STR)
+RPC4 = cls("RepositoryPackCollection", fields=dict(_names=MapS(STR, ANY), _packs_at_load=NODES, chk_index=Opt(ANY)))
+
+
+def kept_so_far(c, seen):
+    return And(Implies(And(In(N0()[0], c.old.g.present), NoPackNamedN0(seen)), In(N0()[0], c.g.present)),
+               Implies(And(In(M0(), c.old.g.present), NoPackNamedM0(seen)), In(M0(), c.g.present)))
+
+
+target(P + "_obsolete_packs", params=dict(packs=Seq(PACKT)), modifies=["g.present"], locals=dict(suffixes=Seq(STR)),
+       loops={1: loop(r"for pack in packs", prefix="seen", inv=lambda c: kept_so_far(c, c.seen)),
+              2: loop(r"for suffix in suffixes", lambda c: And(
+                  Implies(And(In(N0()[0], c.pre.g.present), attr(c.pack, "name") != N0()[0]), In(N0()[0], c.g.present)),
+                  Implies(And(In(M0(), c.pre.g.present), attr(c.pack, "name") != M0()), In(M0(), c.g.present))))},
+       ensures={"only_the_given_packs_lose_files": lambda c: kept_so_far(c, c.old.packs)},
+       raises={}, canary=lambda c: c.g.present == c.old.g.present,
+       equivalent_mutants={r"mutter\(|suffixes|mkdir|contextlib\.suppress|chk_index is not None": "which files of the given packs are moved, and logging: not moving is safe",
+                           r"drop:Expr.*\.move\(": "not moving a file away is safe for this property"},
+       note="never touches the files of a pack that was not handed to it")
+
+# ---- allocate: a pack enters the in-memory list (and so the next pack-names) only when all its files are in place
+assumed("self.ensure_loaded", modifies=["self._names", "self._packs_at_load"],
+        requires=lambda c: memory_names_present(c, c.self._names),
+        ensures=lambda c: memory_names_present(c, c.self._names), raises={"Exception": "unchanged"},
+        note="loading pack-names adds names read from disk: complete by the rely (other writers keep 'listed => present')")
+assumed("self.add_pack_to_memory", result=NONE, raises={"Exception": "unchanged"}, note="in-memory index bookkeeping")
+pure("tuple")
+exceptions(BzrError="Exception")
+target(P + "allocate", params=dict(a_new_pack=PACKT), modifies=["self._names", "self._packs_at_load"],
+       requires=lambda c: And(memory_names_present(c, c.self._names),
+                              # the caller has finished the pack: its pack file and indices are renamed into place
+                              In(attr(c.a_new_pack, "name"), c.g.present)),
+       ensures={"memory_names_stay_complete": lambda c: memory_names_present(c, c.self._names),
+                "the_pack_is_listed_in_memory": lambda c: In(attr(c.old.a_new_pack, "name"), c.self._names)},
+       raises={"BzrError": lambda c: memory_names_present(c, c.self._names), "Exception": lambda c: memory_names_present(c, c.self._names)},
+       canary=lambda c: Not(In(attr(c.old.a_new_pack, "name"), c.self._names)),
+       equivalent_mutants={r"raise errors\.BzrError|add_pack_to_memory|ensure_loaded|a_new_pack\.name in self\._names":
+                           "refusing a duplicate name, loading the list first and in-memory index bookkeeping: not about what is on disk"})
+
+# ---- _commit_write_group: a new pack is finished (renamed into packs/ and indices/) BEFORE it is allocated, and pack-names is rewritten
+#      only after that; whatever goes wrong in between, what pack-names lists stays complete
+cls("RepositoryPackCollection", fields=dict(_names=MapS(STR, ANY), _packs_at_load=NODES, chk_index=Opt(ANY),
+                                            _new_pack=Opt(PACKT), _resumed_packs=Seq(PACKT), repo=ANY))
+always_truthy(PACKT, "pack objects define neither __bool__ nor __len__")
+DataIns4 = ufunc("DataIns4", PACKT, BOOL)
+Problems4 = ufunc("Problems4", Seq(STR))
+Missing4 = ufunc("Missing4", ANY, Seq(ANY))
+assumed(rx(r"versioned_file\.get_missing_compression_parent_keys"), pure=True, returns=lambda c: Missing4(c.versioned_file), raises={"Exception": None})
+assumed("self._check_new_inventories", pure=True, returns=lambda c: Problems4(), raises={"Exception": None})
+assumed("self._remove_pack_indices", result=NONE, raises={"Exception": "unchanged"}, note="in-memory index bookkeeping")
+assumed("self._new_pack.data_inserted", pure=True, no_raise=True, returns=lambda c: DataIns4(c.self._new_pack.val))
+exceptions(BzrCheckError="BzrError")
+pure("sorted")
+
+
+def finished(c, pack):
+    """NewPack.finish: the pack file and its indices are written and renamed into place - nothing else in packs/ or indices/ changes"""
+    return And(In(attr(pack, "name"), c.g.present),
+               Implies(In(N0()[0], c.old.g.present), In(N0()[0], c.g.present)), Implies(In(M0(), c.old.g.present), In(M0(), c.g.present)))
+
+
+assumed("self._new_pack.finish", result=NONE, modifies=["g.present"], ensures=lambda c: finished(c, c.self._new_pack.val),
+        raises={"Exception": lambda c: And(Implies(In(N0()[0], c.old.g.present), In(N0()[0], c.g.present)),
+                                           Implies(In(M0(), c.old.g.present), In(M0(), c.g.present)))},
+        note="pack_repo.NewPack.finish (not under contract): writes indices, renames the pack from upload/ into packs/; adds files only")
+assumed("resumed_pack.finish", result=NONE, modifies=["g.present"], ensures=lambda c: finished(c, c.resumed_pack),
+        raises={"Exception": lambda c: And(Implies(In(N0()[0], c.old.g.present), In(N0()[0], c.g.present)),
+                                           Implies(In(M0(), c.old.g.present), In(M0(), c.g.present)))})
+assumed("self._new_pack.abort", result=NONE, raises={"Exception": "unchanged"}, note="deletes the pack's files in upload/ only")
+ALLOC4 = assumed("self.allocate", local=True, result=NONE, modifies=["self._names", "self._packs_at_load"],
+                 requires=lambda c: And(memory_names_present(c, c.self._names), In(attr(c.args[0].val if isinstance(c.args[0].s, Opt) else c.args[0], "name"), c.g.present)),
+                 ensures=lambda c: memory_names_present(c, c.self._names), raises={"Exception": lambda c: memory_names_present(c, c.self._names)},
+                 note="verified above (target allocate)")
+RM4 = assumed("self._remove_pack_from_memory", local=True, result=NONE, modifies=["self._names"],
+              ensures=lambda c: And(Implies(In(N0()[0], c.self._names), In(N0()[0], c.old.self._names)),
+                                    Implies(In(M0(), c.self._names), In(M0(), c.old.self._names))),
+              raises={"Exception": "unchanged"}, note="removes names from the in-memory list (never adds)")
+AUTO4 = assumed("self.autopack", local=True, modifies=["g.disk_names", "g.present", "self._names", "self._packs_at_load", "g.disk_idx", "g.built", "g.obs_deleted"],
+                requires=lambda c: And(CI(c.g), memory_names_present(c, c.self._names), Not(c.g.names_locked), Not(c.g.written)),
+                ensures=lambda c: And(CI(c.g), memory_names_present(c, c.self._names), Not(c.g.names_locked), Not(c.g.written)),
+                raises={"Exception": lambda c: CI(c.g)},
+                note="autopack -> _execute_pack_operations -> _save_pack_names (below); the packer that writes the combined pack is not under contract")
+SAVE4C = assumed("self._save_pack_names", local=True, modifies=["g.names_locked", "g.disk_idx", "g.disk_names", "g.built", "g.written", "g.obs_deleted", "g.present",
+                                                               "self._packs_at_load", "self._names"],
+                 requires=lambda c: save_pre(c, Opt(Seq(PACKT)).none()), ensures=lambda c: CI(c.g), raises={"Exception": lambda c: CI(c.g)},
+                 note="verified above (target _save_pack_names[crash])")
+target(P + "_commit_write_group", variant="crash", local_contracts=[ALLOC4, RM4, AUTO4, SAVE4C], locals=dict(all_missing=SetS(ANY)),
+       requires=lambda c: And(CI(c.g), memory_names_present(c, c.self._names), Not(c.g.names_locked), Not(c.g.written), Not(c.self._new_pack.is_none)),
+       loops={2: loop(r"for resumed_pack in self\._resumed_packs", lambda c: And(
+           CI(c.g), memory_names_present(c, c.self._names), Not(c.g.names_locked), Not(c.g.written), c.g.disk_names == c.old.g.disk_names))},
+       crash_inv=lambda c: CI(c.g),
+       ensures={"listed_packs_are_complete": lambda c: CI(c.g),
+                "finished_before_allocated_before_listed": lambda c: lift(
+                    c.before("self._new_pack.finish", "self.allocate") and c.before("self.allocate", "self.autopack")
+                    and c.before("self.allocate", "self._save_pack_names"))},
+       raises={"Exception": lambda c: CI(c.g)},
+       canary=lambda c: c.g.disk_names == c.old.g.disk_names,
+       equivalent_mutants={r"format\(|problems_summary|sorted\(|retnone|_remove_pack_indices|all_missing|problems|raise BzrCheckError|any_new_content|"
+                           r"self\._names\[resumed_pack\.name\] = None|_remove_pack_from_memory|abort\(\)|del self\._resumed_packs|drop:Expr.*self\.allocate\(":
+                           "content checks, error text, in-memory bookkeeping and whether anything is committed at all: decided in the C06 check; "
+                           "not committing (or committing less) cannot make pack-names list an incomplete pack"},
+       note="crash invariant after every effectful step of a commit")
+
+# ---- _execute_pack_operations (autopack and pack): the combined packs are written and allocated first, the packs they replace are
+#      only taken out of the in-memory list; pack-names is rewritten ONCE at the end, and only then are the replaced packs moved away
+#      (by _save_pack_names, under its contract above)
+OPS = Seq(Tup(INT, Seq(PACKT)))
+PACKER = Opaque("Packer")
+always_truthy(PACKER, "packer objects define neither __bool__ nor __len__")
+attr_sort("Packer.new_pack", Opt(PACKT))
+exceptions(RetryWithNewPacks="Exception")
+
+
+def retired(c, upto):
+    """every pack of the first `upto` operations is out of the in-memory list"""
+    ops = c.old.pack_operations
+    return forall([PACKT, INT], lambda p, j: Implies(And(0 <= j, j < upto, In(p, ops[j][1])), Not(In(attr(p, "name"), c.self._names))))
+
+
+PACK4 = assumed("packer.pack", local=True, modifies=["self._names", "g.present", "self._packs_at_load", "g.combined"], result=Opt(PACKT),
+                requires=lambda c: And(CI(c.g), memory_names_present(c, c.self._names)),
+                ensures=lambda c: And(CI(c.g), memory_names_present(c, c.self._names), c.g.combined == Not(c.result.is_none),
+                                      # the combined pack gets a fresh name: no pack that exists already is called like it
+                                      forall([PACKT], lambda p: Implies(Not(In(attr(p, "name"), c.old.self._names)), Not(In(attr(p, "name"), c.self._names)))),
+                                      Implies(In(N0()[0], c.old.g.present), In(N0()[0], c.g.present)), Implies(In(M0(), c.old.g.present), In(M0(), c.g.present))),
+                raises={"RetryWithNewPacks": "unchanged", "Exception": lambda c: And(CI(c.g), c.g.disk_names == c.old.g.disk_names)},
+                note="Packer.pack (not under contract): writes ONE new pack, finishes and allocates it (contracts above); never touches existing files; "
+                     "ASSUMED: the new pack's name (md5 of its content) differs from the names of the packs being combined")
+assumed("packer_class", pure=True, no_raise=True, result=PACKER)
+assumed("packer.new_pack.abort", result=NONE, raises={"Exception": "unchanged"})
+RMP4 = assumed("self._remove_pack_from_memory", local=True, result=NONE, modifies=["self._names"],
+               # a pack is retired only when the packer has produced the pack that replaces it (otherwise its revisions would vanish)
+               requires=lambda c: c.g.combined,
+               ensures=lambda c: And(Not(In(attr(c.args[0], "name"), c.self._names)),
+                                     forall([STR], lambda x: Implies(In(x, c.self._names), In(x, c.old.self._names)))),
+               raises={"Exception": "unchanged"}, note="pops the pack's name from self._names (and in-memory index bookkeeping)")
+SAVE4X = assumed("self._save_pack_names", local=True, modifies=["g.names_locked", "g.disk_idx", "g.disk_names", "g.built", "g.written", "g.obs_deleted",
+                                                               "g.present", "self._packs_at_load", "self._names"],
+                 requires=lambda c: save_pre(c, Opt(Seq(PACKT)).some(c.kw["obsolete_packs"] if isinstance(c.kw["obsolete_packs"].s, Seq)
+                                                                     else lift([], Seq(PACKT)))), ensures=lambda c: CI(c.g),
+                 raises={"Exception": lambda c: CI(c.g)}, note="verified above (target _save_pack_names[crash])")
+target(P + "_execute_pack_operations", local_contracts=[PACK4, RMP4, SAVE4X],
+       params=dict(pack_operations=OPS, packer_class=ANY, reload_func=ANY), locals=dict(to_be_obsoleted=Seq(PACKT), packs=Seq(PACKT)),
+       requires=lambda c: And(CI(c.g), memory_names_present(c, c.self._names), Not(c.g.names_locked), Not(c.g.written)),
+       loops={1: loop(r"for _revision_count, packs in pack_operations", index="i", inv=lambda c: And(
+                  CI(c.g), memory_names_present(c, c.self._names), Not(c.g.names_locked), Not(c.g.written),
+                  c.g.disk_names == c.old.g.disk_names, retired(c, c.i))),
+              2: loop(r"for pack in packs", prefix="seen", index="m",
+                      # membership in a prefix that is one element longer (a fact about sequences, stated as an instance for the solver)
+                      hints=lambda c: Implies(And(0 <= c.m, c.m < Len(c.packs)), forall([PACKT], lambda p: In(p, c.packs[0:c.m + 1]) == Or(
+                          In(p, c.packs[0:c.m]), p == c.packs[c.m]))),
+                      inv=lambda c: And(
+                  CI(c.g), memory_names_present(c, c.self._names), Not(c.g.names_locked), Not(c.g.written),
+                  c.g.disk_names == c.old.g.disk_names, retired(c, c.i), c.packs == c.old.pack_operations[c.i][1], c.g.combined,
+                  forall([PACKT], lambda p: Implies(In(p, c.seen), Not(In(attr(p, "name"), c.self._names)))))),
+              3: loop(r"for _, packs in pack_operations", index="k", inv=lambda c: And(
+                  CI(c.g), memory_names_present(c, c.self._names), Not(c.g.names_locked), Not(c.g.written),
+                  retired(c, Len(c.old.pack_operations)),
+                  forall([PACKT], lambda p: Implies(In(p, c.to_be_obsoleted), exists([INT], lambda j: And(0 <= j, j < c.k, In(p, c.old.pack_operations[j][1])))))))},
+       crash_inv=lambda c: CI(c.g),
+       ensures={"listed_packs_are_complete": lambda c: CI(c.g),
+                "one_rewrite_after_all_new_packs_exist": lambda c: lift(c.calls("self._save_pack_names") <= 1 and c.before("packer.pack", "self._save_pack_names"))},
+       raises={"Exception": lambda c: CI(c.g)},
+       canary=lambda c: lift(c.calls("self._save_pack_names") == 0),
+       equivalent_mutants={r"packer\.new_pack is not None|new_pack\.abort\(\)": "cleaning up the half-written pack in upload/ after a retry request"},
+       note="crash invariant after every effectful step of autopack / pack")
